@@ -12,6 +12,7 @@ import (
 	"verif/internal/mc"
 	"verif/internal/refbin"
 	rm "verif/internal/refmodel"
+	"verif/internal/refsym"
 	"verif/internal/reftext"
 )
 
@@ -107,6 +108,19 @@ func c08Docs() []doc {
 	for i, t := range tricky {
 		add(fmt.Sprintf("tricky%d", i), rm.ListV(rm.SexpV(t, rm.StructV(t.F("k"))), rm.IntV(1)), rm.IntV(2))
 	}
+	for i, lit := range c08LiteralTexts {
+		raw, err := reftext.Parse([]byte(lit))
+		if err != nil {
+			panic(fmt.Sprintf("c08 literal %q: %v", lit, err))
+		}
+		res, err := refsym.Resolve(raw, nil)
+		if err != nil {
+			panic(fmt.Sprintf("c08 literal %q: %v", lit, err))
+		}
+		name := fmt.Sprintf("tricky-literal%d", i)
+		out = append(out, doc{name, res.Values})
+		c08Literals[name] = []byte(lit)
+	}
 	c08DocsCache = out
 	return out
 }
@@ -199,6 +213,8 @@ func c08Body(c *mc.Ctx) {
 	var data []byte
 	if binary {
 		data = refbin.EncodeStream(spell, d.vals)
+	} else if lit, ok := c08Literals[d.name]; ok && layer == 0 {
+		data = lit
 	} else {
 		data = reftext.Print(spell, d.vals)
 	}
@@ -213,10 +229,12 @@ func c08Body(c *mc.Ctx) {
 	if failPanic(c, pan) {
 		return
 	}
-	if berr != nil || rm.DiffStreams(d.vals, base) != "" {
-		c.Skip("plain traversal already fails or disagrees with the model (left to C02/C03)")
+	if berr != nil {
+		c.Skip("plain traversal already fails (left to C02/C03/C07)")
 		return
 	}
+	// The expectation is what the plain traversal of the SAME bytes returned, whether or not it
+	// agrees with the model (that agreement is C02/C03's business): navigation must not change it.
 	cu := &c08Cursor{stack: []c08Frame{{kids: base, idx: -1}}}
 	var r ion.Reader
 	if failPanic(c, drive.Safe(func() { r = ion.NewReaderBytes(data) })) {
@@ -395,7 +413,7 @@ func init() {
 	mc.Register(&mc.Check{
 		ID:    "C08",
 		Title: "What a Reader returns does not depend on how the caller navigated",
-		Rule: "documents (every token-class representative inside list / sexp / struct / nested containers with neighbours; all container shapes <=4 nodes; lobs, strings and symbols whose text looks like brackets, quotes and comments) in text and binary, in canonical form and with <=d spelling/encoding deviations, x navigation programs: " +
+		Rule: "documents (every token-class representative inside list / sexp / struct / nested containers with neighbours; all container shapes <=4 nodes; lobs, strings and symbols whose text looks like brackets, quotes and comments; eight literal text documents in which operators run into comments and closers sit inside comments, strings, symbols and lobs) in text and binary, in canonical form and with <=d spelling/encoding deviations, x navigation programs: " +
 			"(mode 0) the plain full traversal with <=d deviations, a deviation being one departure at one step: Next instead of StepIn (skip), StepOut early after any number of children, a refused StepIn (scalar/null/no value) or StepOut (top level), a wrong-typed accessor, the right-typed accessor twice, or extra Next/StepOut/StepIn after the end; (mode 1) EVERY program of length <=6 (thorough 8) over {Next, StepIn, StepOut, wrong accessor} on the 24 smallest shape documents. " +
 			"Oracle: a reference cursor over the forest the same Reader type produced in its own plain traversal; after every step Next's result, Type, IsNull, FieldName, Annotations and the scalar value must equal the plain traversal's at that path and Err must stay nil. " +
 			"non-trivial = a whole program was executed and compared step by step; distinct = distinct (document, per-step observation) digests",
